@@ -92,7 +92,21 @@ pub fn apply_op(pkg: &mut rpm::Package, op: &Op) -> Result<(), (String, String)>
             Op::Reparse => {
                 let mut v = Vec::new();
                 pkg.write(&mut v)?;
-                *pkg = rpm::Package::parse(&mut &v[..])?;
+                // alternately from a slice and from a small-buffered reader over 5-byte reads
+                *pkg = if v.len() % 2 == 0 {
+                    rpm::Package::parse(&mut &v[..])?
+                } else {
+                    struct Five<'a>(&'a [u8]);
+                    impl std::io::Read for Five<'_> {
+                        fn read(&mut self, b: &mut [u8]) -> std::io::Result<usize> {
+                            let n = b.len().min(5).min(self.0.len());
+                            b[..n].copy_from_slice(&self.0[..n]);
+                            self.0 = &self.0[n..];
+                            Ok(n)
+                        }
+                    }
+                    rpm::Package::parse(&mut std::io::BufReader::with_capacity(13, Five(&v)))?
+                };
                 Ok(())
             }
         }
